@@ -3,6 +3,8 @@
 // Contracts for the deductive verifier in /verif (comment-only: adds no declarations).
 package main
 
+//@ import "github.com/Cloud-Foundations/keymaster/lib/vip"
+//@ import "github.com/Cloud-Foundations/keymaster/lib/pwauth/okta"
 //@ use strings nethttp fmt oauth2 neturl time ssh crypto errors x509 keymasterd_jose pwauth cfssl
 
 // ---- C17: post-login redirects stay on the keymaster origin ------------------------------------
@@ -103,6 +105,7 @@ package main
 //@   ghostset ghostAuthUser string = ai.Username if err == nil
 //@   ghostset ghostAuthLevel int = ai.AuthType if err == nil
 //@   ghostset ghostAuthIssuedAt int64 = timeNanos(ai.IssuedAt) if err == nil
+//@   ghostset ghostVerifiedBits int = 0
 //@   ensures err == nil ==> ai.AuthType & requiredAuthType != 0                                             #C06.kind @C06
 //@   ensures err == nil ==> viaCookie(state, ai) || viaTLS(state, r, ai) || viaPassword(state, ai)           #C06.established @C06,C01,C04
 //@   ensures err == nil && r.Method != "GET" && getOriginOrReferrer(r) != "" && r.Host != "" ==> urlHostOf(getOriginOrReferrer(r)) == r.Host  #C06.csrf @C06
@@ -224,3 +227,34 @@ package main
 //@   ensures err == nil ==> claimsAuthJWT(intoken).Issuer == state.idpGetIssuer() && len(claimsAuthJWT(intoken).Audience) >= 1 && claimsAuthJWT(intoken).Audience[0] == state.idpGetIssuer()  #C04.update-issuer-audience @C04
 //@   ensures err == nil ==> claimsAuthJWT(intoken).TokenType == "keymaster_auth"                           #C04.update-kind @C04
 //@   ensures err == nil ==> claimsAuthJWT(intoken).NotBefore <= nowNanos() / 1000000000                    #C04.update-nbf @C04
+
+// ---- C05: a session gains a factor only when its own user proves that factor ---------------------------------
+// factor bits verified for the authenticated user since the last credential check of this request
+// (reset by every checkAuth; each verifier adds its bit only for the user checkAuth established)
+//@ ghost var ghostVerifiedBits int
+
+//@ func (*RuntimeState).updateAuthCookieAuthlevel
+//@   results oldtok, err
+//@   requires ghostAuthed                                                                                 #C05.authed @C05
+//@   requires (authlevel &^ ghostAuthLevel) &^ ghostVerifiedBits == 0                                     #C05.own-factor @C05
+//@   ensures err == nil ==> verifiedByKeymaster(state, oldtok) && claimsAuthJWT(oldtok).TokenType == "keymaster_auth"  #C05.upgrades-valid-cookie @C05,C04
+//@   ensures err == nil ==> claimsAuthJWT(oldtok).Subject == ghostAuthUser                                  #C05.own-session @C05
+
+//@ func (*RuntimeState).commonTOTPPostHandler
+//@   ensures ret3 == nil ==> ghostAuthed && ret0 == ghostAuthUser && ret1 == ghostAuthLevel && ghostVerifiedBits == 0  #C05.common-identity @C05
+//@ func (*RuntimeState).internalTOTPAuthHandler
+//@   requires ghostAuthed && authUser == ghostAuthUser && currentAuthLevel == ghostAuthLevel && ghostVerifiedBits == 0  #C05.totp-identity @C05
+//@ func (*RuntimeState).validateUserTOTP
+//@   ghostset ghostVerifiedBits int = ghostVerifiedBits | AuthTypeTOTP if ret0 && ret1 == nil && username == ghostAuthUser
+
+//@ func (*RuntimeState).VIPAuthHandler
+//@   atcall vip.Client).ValidateUserOTP sets ghostVerifiedBits int (c *vip.Client, userID string, otp int, ok bool, err error) :: ghostVerifiedBits | AuthTypeSymantecVIP if ok && err == nil && userID == ghostAuthUser
+//@ func (*RuntimeState).VIPPollCheckHandler
+//@   atcall vip.Client).VipPushHasBeenApproved sets ghostVerifiedBits int (c *vip.Client, transactionID string, ok bool, err error) :: ghostVerifiedBits | AuthTypeSymantecVIP if ok && err == nil && vipPushStartedFor(transactionID, ghostAuthUser)
+// every stored push transaction was started (at the VIP service) for the user it records
+//@ ghost func vipPushStartedFor(tx string, user string) bool
+//@ valinv pushPollTransaction (v pushPollTransaction) :: vipPushStartedFor(v.TransactionID, v.Username)  #C05.vip-tx-owner @C05
+//@ func (*RuntimeState).Okta2FAuthHandler
+//@   atcall okta.PasswordAuthenticator).ValidateUserOTP sets ghostVerifiedBits int (pa *okta.PasswordAuthenticator, user string, otp int, ok bool, err error) :: ghostVerifiedBits | AuthTypeOkta2FA if ok && err == nil && user == ghostAuthUser
+//@ func (*RuntimeState).oktaPollCheckHandler
+//@   atcall okta.PasswordAuthenticator).ValidateUserPush sets ghostVerifiedBits int (pa *okta.PasswordAuthenticator, user string, resp okta.PushResponse, err error) :: ghostVerifiedBits | AuthTypeOkta2FA if resp == okta.PushResponseApproved && err == nil && user == ghostAuthUser
